@@ -328,6 +328,20 @@ func verifDupSubject() *UserTypeExpr {
 	if nondetBool("recursive") {
 		obj.Set("self", &AttributeExpr{Type: t})
 	}
+	switch nondetChoice("extra-members", 3) {
+	case 1:
+		// two result types whose identifiers differ only by structured-syntax suffix / case
+		mkRT := func(id, field string) *ResultTypeExpr {
+			return &ResultTypeExpr{Identifier: id, UserTypeExpr: &UserTypeExpr{TypeName: "RT" + field, AttributeExpr: &AttributeExpr{
+				Type: &Object{{Name: field, Attribute: &AttributeExpr{Type: String}}}}}}
+		}
+		obj.Set("rj", &AttributeExpr{Type: mkRT("application/vnd.acme.item+json", "j")})
+		obj.Set("rx", &AttributeExpr{Type: mkRT("application/vnd.Acme.Item+xml", "x")})
+	case 2:
+		// a user type that merely shares the name of the built-in Empty type
+		obj.Set("e", &AttributeExpr{Type: &UserTypeExpr{TypeName: "Empty", AttributeExpr: &AttributeExpr{
+			Type: &Object{{Name: "z", Attribute: &AttributeExpr{Type: Int, Validation: &ValidationExpr{Pattern: "z"}}}}}}})
+	}
 	return t
 }
 
